@@ -189,7 +189,11 @@ func genRandom(r *common.Rand, n int, emit func(string), stores []string, cas bo
 					ts.ops = append(ts.ops, fmt.Sprintf("r %d %d", k, candID(k, uint64(1+r.Intn(space)))))
 					steps++
 				default:
-					ts.ops = append(ts.ops, "o")
+					if r.Intn(3) == 0 {
+						ts.ops = append(ts.ops, "c")
+					} else {
+						ts.ops = append(ts.ops, "o")
+					}
 					steps++
 				}
 			}
@@ -471,6 +475,68 @@ func genDoubleRelease(emit func(string)) {
 	}
 }
 
+// ---- expiry GC passes racing with claims of ids whose previous marker has lapsed, then further
+// claimants.  Gated (the pass is one step): every schedule of length 5 over two claimants and a
+// sweeper, on the tickable stores.  Free-running: N claimants and 1-2 sweepers released together onto
+// expired-unswept markers of the real memory-backed stores (claim store = memory, hybrid shared tier,
+// single-node hybrid).
+func genSweep(r *common.Rand, rounds int, emit func(string)) {
+	gated := []string{"dbl", "red", "hyr"}
+	for pi, progs := range [][]thrSpec{
+		{{0, []string{"g 9 0"}}, {1, []string{"g 9 0"}}, {2, []string{"c", "c"}}},
+		{{0, []string{genOp(2, []uint64{1, 2})}}, {1, []string{genOp(2, []uint64{1, 2}), "o", "c"}}, {2, []string{"c", genOp(2, []uint64{1, 3})}}},
+	} {
+		kind := nodeKind
+		if pi == 1 {
+			kind = 2
+		}
+		for m := 0; m < 243; m++ {
+			sch := [][2]int64{{1, 3}}
+			x := m
+			for j := 0; j < 5; j++ {
+				sch = append(sch, [2]int64{0, int64(x % 3)})
+				x /= 3
+			}
+			pre := []preEnt{{kind, 1, 1}}
+			if m%2 == 1 {
+				pre = append(pre, preEnt{kind, 2, 1})
+			}
+			emit(mkCase(false, gated[(m+pi)%3], true, defTTL, pre, progs, sch))
+		}
+	}
+	stores := []string{"mem", "hyb", "hy1", "mem", "hyb", "hy1", "red", "hyr", "dbl"}
+	for c := 0; c < rounds; c++ {
+		store := stores[c%len(stores)]
+		nt := []int{3, 4, 8}[c%3]
+		node := c%2 == 0
+		kind := nodeKind
+		if !node {
+			kind = r.Intn(4)
+		}
+		space := 2 + r.Intn(5)
+		var pre []preEnt
+		for i := 1; i <= space; i++ {
+			pre = append(pre, preEnt{kind, candID(kind, uint64(i)), 1})
+		}
+		var thr []thrSpec
+		for t := 0; t < nt; t++ {
+			if node {
+				thr = append(thr, thrSpec{t, []string{"g 9 0"}})
+				continue
+			}
+			var ops []string
+			for i := 1; i <= space; i++ {
+				ops = append(ops, genOp(kind, []uint64{uint64(i), uint64(1000 + 100*t + i)}))
+			}
+			thr = append(thr, thrSpec{t, ops})
+		}
+		for sw := 0; sw < 1+c%2; sw++ {
+			thr = append(thr, thrSpec{nt + sw, []string{"c", "c", "c"}})
+		}
+		emit(mkCase(true, store, true, defTTL, pre, thr, [][2]int64{{1, 3}}))
+	}
+}
+
 // ---- E: node id allocation, renewal, release, lease expiry
 func genNode(r *common.Rand, n int, emit func(string)) {
 	lock := node.NodeIDLockTTL.Milliseconds()
@@ -604,6 +670,7 @@ func generate(r *common.Rand, tier string, emit func(string)) {
 	genFallback(r.Fork(), 150*scale, emit)
 	genFree(r.Fork(), 120*scale, emit)
 	genFreeStates(r.Fork(), 700*(1+scale/3), emit)
+	genSweep(r.Fork(), 200*(1+scale/3), emit)
 	genNode(r.Fork(), 300*scale, emit)
 	genNodeExhaustion(emit)
 }
